@@ -563,7 +563,13 @@ class Study:
         trial_id = self._pop_waiting_trial_id()
         if trial_id is None:
             trial_id = self._storage.create_new_trial(self._study_id)
-        trial = optuna.Trial(self, trial_id)
+        try:
+            trial = optuna.Trial(self, trial_id)
+        except BaseException:
+            # The trial already exists in the storage: do not leave it RUNNING when the sampler
+            # fails in ``before_trial``, ``infer_relative_search_space`` or ``sample_relative``.
+            self._storage.set_trial_state_values(trial_id, TrialState.FAIL)
+            raise
 
         for name, param in fixed_distributions.items():
             trial._suggest(name, param)
